@@ -26,7 +26,10 @@ type c09node struct {
 	Val   string   `json:"val,omitempty"`   // leaf value, textual
 	Where string   `json:"where,omitempty"` // leaf: "lit", "reduce" (bound through Reduce), "eval" (bound at evaluation)
 	Name  string   `json:"name,omitempty"`
+	Cast  string   `json:"cast,omitempty"` // variable leaf: the ::type written behind the reference (one that agrees with the bound value)
 }
+
+var c09casts = map[string]influxql.DataType{"integer": influxql.Integer, "unsigned": influxql.Unsigned, "float": influxql.Float, "boolean": influxql.Boolean, "string": influxql.String, "tag": influxql.Tag, "field": influxql.AnyField}
 
 var c09tok = map[string]influxql.Token{
 	"+": influxql.ADD, "-": influxql.SUB, "*": influxql.MUL, "/": influxql.DIV, "%": influxql.MOD,
@@ -88,10 +91,10 @@ func (n *c09node) build(allvars bool, red, ev, all map[string]interface{}) influ
 	switch n.Where {
 	case "reduce":
 		red[n.Name] = v
-		return &influxql.VarRef{Val: n.Name}
+		return &influxql.VarRef{Val: n.Name, Type: c09casts[n.Cast]}
 	case "eval":
 		ev[n.Name] = v
-		return &influxql.VarRef{Val: n.Name}
+		return &influxql.VarRef{Val: n.Name, Type: c09casts[n.Cast]}
 	}
 	switch x := v.(type) {
 	case int64:
@@ -336,6 +339,9 @@ func genTree(rg *mon.Rng, kind string, depth int, ctr *int) *c09node {
 	*ctr++
 	vals := c09vals[kind]
 	n := &c09node{Kind: kind, Val: vals[rg.Intn(len(vals))], Where: c09wheres[rg.Intn(3)], Name: fmt.Sprintf("%s%d", map[string]string{"I": "i", "U": "u", "F": "f", "B": "b", "S": "s"}[kind], *ctr)}
+	if n.Where != "lit" && rg.P(0.2) {
+		n.Cast = map[string][]string{"I": {"integer", "field"}, "U": {"unsigned", "field"}, "F": {"float", "field"}, "B": {"boolean", "field"}, "S": {"string", "tag", "tag", "field"}}[kind][rg.Intn(2+2*b2i(kind == "S"))]
+	}
 	if kind == "I" && rg.P(0.3) {
 		n.Val = strconv.FormatInt(int64(rg.Uint64()>>uint(rg.Intn(64))), 10)
 	}
@@ -343,6 +349,13 @@ func genTree(rg *mon.Rng, kind string, depth int, ctr *int) *c09node {
 		n.Val = strconv.FormatFloat(rg.NormFloat64()*math.Pow(10, float64(rg.Range(-3, 12))), 'g', -1, 64)
 	}
 	return n
+}
+
+func b2i(b bool) int {
+	if b {
+		return 1
+	}
+	return 0
 }
 
 func checkC09(c *Ctx) (string, bool, []string) {
@@ -563,6 +576,16 @@ func c09TimeAll(c *Ctx, only string) {
 				}
 				if !isInt && d >= 0 {
 					check(ds+" + "+a.text, valuer, &influxql.TimeLiteral{Val: a.t.Add(d)})
+				}
+				if !isInt {
+					// the duration written as a plain count of nanoseconds, on
+					// either side
+					ns := strconv.FormatInt(int64(d), 10)
+					if d >= 0 {
+						check(ns+" + "+a.text, valuer, &influxql.TimeLiteral{Val: a.t.Add(d)})
+						check(a.text+" + "+ns, valuer, &influxql.TimeLiteral{Val: a.t.Add(d)})
+						check(a.text+" - "+ns, valuer, &influxql.TimeLiteral{Val: a.t.Add(-d)})
+					}
 				}
 			}
 			for _, b := range tss {
